@@ -1,6 +1,7 @@
 (* C06 — object files round-trip and the loader rejects what it cannot load. *)
 From Coq Require Import Arith.
 From Lace Require Import Word Machine Isa Vm Asm Cli CliProofs.
+From Lace Require CliRead.
 From Lace Require Examples.
 Open Scope N_scope.
 
@@ -42,6 +43,14 @@ Theorem C06_loader_iff : forall bytes inp,
      hi * 256 + lo + N.of_nat (Nat.div (length rest) 2) + 1 <= W).
 Proof. exact loader_iff. Qed.
 Print Assumptions C06_loader_iff.
+
+(** How the code reads the file (CliRead.v, since the repair F31): the length comes from the file's metadata, an odd length
+    is refused at once, and at most 2 * (x10000 + 1) bytes - one word more than any loadable image - are read.  That is the
+    same function of the file's bytes as reading it whole: the loader theorems above speak about the code as it is, and no
+    file, however long, needs more than 128 KiB + 2 bytes of it in memory. *)
+Theorem C06_read_limit : forall bytes inp, CliRead.load_file_code bytes inp = load_file bytes inp.
+Proof. exact CliRead.load_file_code_eq. Qed.
+Print Assumptions C06_read_limit.
 
 (** Everything else is an error exit (status 1: not aligned; xEE: empty or too long), not a panic. *)
 Theorem C06_loader_rejects : forall bytes inp, exists r, load_file bytes inp = r /\
